@@ -62,6 +62,14 @@ def s_lt(a, b, strict=True):
 
 
 def s_concat(a, b):
+    if getattr(a, 'tag', None) is not None and getattr(b, 'tag', None) is None and a.tag.get('suffix') is None:
+        r = _s_concat(a, b)
+        r.tag = dict(a.tag, suffix=b)
+        return r
+    return _s_concat(a, b)
+
+
+def _s_concat(a, b):
     if a.is_vec() and b.is_vec():
         return SStr(chars=a.chars + b.chars)
     if a.is_vec() and not a.chars:
